@@ -3,6 +3,7 @@ import SieveModel.Model.Serialize
 import SieveModel.Model.Lexer
 import SieveModel.Lemmas.Printable
 import SieveModel.Generated.Tables
+import SieveModel.Lemmas.Reprint
 /-!
 # C04 — print/parse round trip
 
@@ -15,8 +16,20 @@ import SieveModel.Generated.Tables
   for the table regenerated from `/repo` by kernel evaluation (`live_table_printable`).
 * lemmas about the printer's treatment of values (quoted items and values verbatim, one LF after
   multi-line text).
-The second half of the round trip (the printed text parses back to the same tree) needs the
-lexer/parser equivalence theorems and is decided by the round-trip oracle on every accepted input.
+* **the printed text lexes back to exactly the tokens of the tree** (`printed_script_lexes_to_its_tokens`): for every
+  table satisfying the decidable conditions `Reprint.TableL` (names are identifiers; only controls and tests take a block;
+  a slot or tag parameter that admits strings prints them as strings — so that a multi-line block gets its line feed — and
+  is not a tag slot), `Printable.TableP`, `Typed.TableT`, `Roles.TableN`, and every input the parser model accepts: if the
+  serializer returns `out`, the lexer model reads `out` without error and the kinds and texts of its tokens are
+  `Reprint.flatNs T r` — per node its name, the recorded values in definition order, each value as the very token it was
+  read from (a quoted string, a number, a tag, a multi-line block — whatever bytes it contains), lists between brackets
+  with commas, tests between parentheses, `;` or a braced block.  Proof: a token is read again as the same token in front
+  of any byte that cannot continue it (`Lemmas/Relex.lean`, by cases over the fifteen lexer rules); every value of an
+  accepted tree is a token of the input (`Lemmas/Typed.lean`, list items included); the printer separates what it writes
+  by such bytes (`Lemmas/Reprint.lean`, by structural recursion over the tree).  The table conditions are discharged for
+  the table regenerated from `/repo` by kernel evaluation (`live_table_reprintable`).
+The last step of the round trip (the parser rebuilds an equal tree from those tokens) is decided by the round-trip oracle
+on every accepted input.
 -/
 namespace C04
 open Ser
@@ -60,5 +73,49 @@ theorem accepted_script_can_be_printed_live (text : Bytes) (prev : PState) (r : 
 theorem lexer_is_the_modelled_one :
     Generated.lexRuleNames = TokKind.all.map TokKind.name ∧ Generated.lexRulePatterns = TokKind.patterns ∧
       Generated.parserPatterns = TokKind.auxPatterns := by decide
+
+/-- the table regenerated from `/repo` meets the conditions under which printed text lexes back -/
+theorem live_table_reprintable :
+    Reprint.TableL Generated.builtinTable ∧ Typed.TableT Generated.builtinTable ∧ Roles.TableN Generated.builtinTable := by
+  decide +kernel
+
+/-- **what the printer writes lexes back, without error, to exactly the tokens of the tree** -/
+theorem printed_script_lexes_to_its_tokens (T : Table) (hL : Reprint.TableL T) (hP : Printable.TableP T) (hT : Typed.TableT T)
+    (hN : Roles.TableN T) (text : Bytes) (prev : PState) (r : List Node) (h : Machine.parse T text prev = .accept r)
+    (out : Bytes) (hs : Ser.script T r = some out) :
+    ∃ lr, Lex.lex out = some lr ∧ lr.err = none ∧ lr.toks.map Lex.kt = Reprint.flatNs T r := by
+  obtain ⟨lr0, hl0, hnt⟩ := Typed.accepted_tree_typed hT text prev r h
+  obtain ⟨_, hnr⟩ := Roles.accepted_tree_roles hN text prev r h
+  have C : Reprint.Ctx (fun tok => tok ∈ lr0.toks) T := ⟨hL, hP, fun tok htok => Lex.lex_genuine text lr0 hl0 tok htok⟩
+  have hpw := Reprint.nodes_pw C r 0 out (fun n hn => ⟨⟨hnt n hn, (hnr n hn).2⟩, (hnr n hn).1⟩) hs
+  have hsw := hpw [] [] (Lex.SWeave.nil [] (by intro c hc; simp at hc))
+  rw [List.append_nil, List.append_nil] at hsw
+  exact Lex.lex_of_sweave _ _ hsw
+
+theorem printed_script_lexes_to_its_tokens_live (text : Bytes) (prev : PState) (r : List Node)
+    (h : Machine.parse Generated.builtinTable text prev = .accept r) (out : Bytes) (hs : Ser.script Generated.builtinTable r = some out) :
+    ∃ lr, Lex.lex out = some lr ∧ lr.err = none ∧ lr.toks.map Lex.kt = Reprint.flatNs Generated.builtinTable r :=
+  printed_script_lexes_to_its_tokens _ live_table_reprintable.1 live_table_printable live_table_reprintable.2.1
+    live_table_reprintable.2.2 text prev r h out hs
+
+/-- the printed text never contains a byte sequence that is no token -/
+theorem printed_script_has_no_lexical_error (text : Bytes) (prev : PState) (r : List Node)
+    (h : Machine.parse Generated.builtinTable text prev = .accept r) (out : Bytes) (hs : Ser.script Generated.builtinTable r = some out) :
+    ∃ lr, Lex.lex out = some lr ∧ lr.err = none := by
+  obtain ⟨lr, h1, h2, _⟩ := printed_script_lexes_to_its_tokens_live text prev r h out hs
+  exact ⟨lr, h1, h2⟩
+
+/-- non-vacuity: a script with an escaped quote, a list, a multi-line block and a nested test list is accepted, printed,
+    and the printed text lexes to the tokens of its tree -/
+example :
+    (match Machine.parse Generated.builtinTable
+        (sb "require [\"fileinto\",\"reject\"]; if anyof(header :is \"a\\\"b\" [\"x\",\"y, z\"], not true) { fileinto \"in]box\"; reject text:\nno $1\n.\n; }") with
+     | .accept r =>
+       (match Ser.script Generated.builtinTable r with
+        | some out => (match Lex.lex out with
+            | some lr => lr.err.isNone && decide (lr.toks.map Lex.kt = Reprint.flatNs Generated.builtinTable r) && decide (lr.toks.length = 30)
+            | none => false)
+        | none => false)
+     | _ => false) = true := by decide +kernel
 
 end C04
